@@ -87,7 +87,7 @@ inline void sample(const std::string& text) {
 	auto& s = st();
 	if (s.samples.size() < 3) s.samples.push_back(text.size() > 1500 ? text.substr(0, 1500) + "..." : text);
 }
-inline unsigned caseTimeoutSeconds() { const char* e = getenv("VERIF_CASE_TIMEOUT"); return e ? (unsigned)atoi(e) : 90u; }
+inline unsigned caseTimeoutSeconds() { const char* e = getenv("VERIF_CASE_TIMEOUT"); return e ? (unsigned)atoi(e) : 300u; }
 // called before a heavy case is executed, so that a crash can be attributed
 inline void current(const std::string& caseText) {
 	auto& s = st();
